@@ -146,6 +146,7 @@ type Explorer struct {
 	decimals         []decRecord
 	curFn            *ssa.Function
 	AllowTagsInFresh bool
+	FreshASCII       bool // bound: opaque crypto outputs are 7-bit bytes (for code that pushes them through []rune)
 	taken            []int
 	freshN           int
 	reached          []string
@@ -210,6 +211,7 @@ func (e *Explorer) startPath(prefix []int) {
 	e.freshCat = nil
 	e.decimals = nil
 	e.AllowTagsInFresh = false
+	e.FreshASCII = false
 	e.freshSizes = map[string][]int{}
 	e.inSizes = map[string]int{}
 	e.clock = 0
